@@ -323,6 +323,82 @@ pub fn campaigns(ctx: &Ctx) -> Stats {
             Some(Case7::Q(SeqCase { calls }))
         }));
     }
+    // arguments of very different magnitudes, full mantissas; exponents far outside the usual range
+    {
+        use OpKind::*;
+        let (lin, mul, jit) = wide_exps();
+        let arg_max = if IS_F32 { 80.0 } else { 700.0 };
+        let shapes: Vec<Vec<usize>> = vec![vec![6], vec![2, 5], vec![3, 1, 4], vec![17]];
+        let kinds = 16u64;
+        st.merge(ctx.run_indexed("wide-magnitudes", kinds * shapes.len() as u64 * t.pick(1200, 25000), None, |i| {
+            let d = shapes[((i / kinds) % shapes.len() as u64) as usize].clone();
+            let n = numel(&d);
+            let z = mix(i ^ 0xC07 ^ ctx.seed.wrapping_mul(0x9E3779B1));
+            let j = if (z >> 20) & 1 == 0 { 0 } else { jit };
+            let lin_vals = |signed: bool| wide_vals(z, n, pick_base(z as u8, lin), j, signed);
+            let mul_vals = |signed: bool| wide_vals(z, n, pick_base(z as u8, mul), j, signed);
+            // bounded arguments of exp-like functions: magnitudes from tiny to the largest that stays finite
+            let arg_vals = || wide_vals(z, n, pick_base(z as u8, 40).min(9), j.min(8), true).into_iter().map(|v: f64| v.clamp(-arg_max, arg_max)).collect::<Vec<f64>>();
+            let k = 2f64.powi(pick_base((z >> 8) as u8, 40)) * if (z >> 30) & 1 == 0 { 1.0 } else { -1.5 };
+            let (op, vals): (OpKind, Vec<f64>) = match i % kinds {
+                0 => (Neg, lin_vals(true)),
+                1 => (ScaleR(k), mul_vals(true)),
+                2 => (ScaleL(k), mul_vals(true)),
+                3 => (Relu, lin_vals(true)),
+                4 => (ActRelu, lin_vals(true)),
+                5 => (Sum(1 + (z >> 40) as usize % d.len()), lin_vals(true)),
+                6 => (Reshape(vec![n]), lin_vals(true)),
+                7 => (Ln, lin_vals(false)),
+                8 => (Recip, lin_vals(true)),
+                9 => (Exp, arg_vals()),
+                10 => (Sigmoid, arg_vals()),
+                11 => (Softmax, arg_vals()),
+                12 => (ActSigmoid, arg_vals()),
+                13 => (ActSoftmax, arg_vals()),
+                14 => (Powf([2.0, 3.0, 4.0, -1.0, -2.0, 1.0, 0.0][(z >> 44) as usize % 7]), mul_vals(true)),
+                _ => (Powf([0.5, 1.5, -0.5, -1.5, 2.5, 0.25][(z >> 44) as usize % 6]), mul_vals(false)),
+            };
+            Some(Case7::F(FwdCase { op, leaves: vec![LeafSpec { dims: d, vals, tracked: (z >> 21) & 1 == 1 }], force_exact: None, second_is_view_of_first: None }))
+        }));
+        // whole exponents beyond the range of 32-bit integers, bases at and next to +-1 (finite, ordinary results)
+        let big_e: [f64; 8] = [2147483648.0, 2147483649.0, 4294967296.0, 8589934592.0, -2147483649.0, -4294967296.0, 1e10, 3e9];
+        st.merge(ctx.run_indexed("powf-exponents-beyond-i32", big_e.len() as u64 * 2, None, |i| {
+            let e = big_e[(i / 2) as usize];
+            // 1 -+ 2^-33 and 1 -+ 2^-34 are exact in f64 (the f32 build keeps the bases at exactly +-1)
+            let near = |s: f64, k: i32| if IS_F32 { s } else { s * (1.0 - 2f64.powi(-k)) };
+            let vals = if i % 2 == 0 { vec![-1.0, 1.0, near(1.0, 33), near(-1.0, 33)] } else { vec![near(1.0, 34), -1.0, near(-1.0, 32), 1.0] };
+            Some(Case7::F(FwdCase { op: Powf(e), leaves: vec![LeafSpec { dims: vec![2, 2], vals, tracked: i % 4 == 1 }], force_exact: None, second_is_view_of_first: None }))
+        }));
+        // more than 2^16 elements
+        let big: Vec<(Vec<usize>, OpKind)> = vec![
+            (vec![70001], Sum(1)),
+            (vec![2, 35001], Sum(1)),
+            (vec![35001, 2], Sum(1)),
+            (vec![300, 300], Sum(2)),
+            (vec![70001], Softmax),
+            (vec![35001, 2], Softmax),
+            (vec![2, 35001], Exp),
+            (vec![70001], Sigmoid),
+            (vec![66000], Relu),
+            (vec![66000], Neg),
+            (vec![66000], Powf(2.0)),
+            (vec![300, 300], Reshape(vec![90000])),
+            (vec![90000], Reshape(vec![300, 300])),
+            (vec![2, 33000], Reshape(vec![33000, 2])),
+            (vec![66000], ActSigmoid),
+            (vec![33000, 2], ActSoftmax),
+        ];
+        st.merge(ctx.run_indexed("more-than-65536-elements", big.len() as u64 + 2, None, |i| {
+            if i as usize >= big.len() {
+                let n = 70001 + (i as usize - big.len()) * 30000;
+                return Some(Case7::S(ScalarCase::SumAll(LeafSpec { dims: vec![n], vals: (0..n).map(|k| ((k * 13) % 257) as f64 - 128.0).collect(), tracked: false })));
+            }
+            let (d, op) = big[i as usize].clone();
+            let n = numel(&d);
+            let vals: Vec<f64> = if matches!(op, Sum(_) | Relu | Neg | Powf(_) | Reshape(_)) { (0..n).map(|k| ((k * 13 + k / 1009) % 257) as f64 - 128.0).collect() } else { (0..n).map(|k| ((k * 13 + k / 1009) % 257) as f64 / 64.0 - 2.0).collect() };
+            Some(Case7::F(FwdCase { op, leaves: vec![LeafSpec { dims: d, vals, tracked: false }], force_exact: None, second_is_view_of_first: None }))
+        }));
+    }
     let (max_rank, max_size, total) = t.pick((4usize, 9usize, 40000u64), (5, 13, 600000));
     let nops = 6 + map_ops().len();
     let strat = move || (prop::collection::vec(1..=max_size, 1..=max_rank), 0..nops, any::<u8>(), -3.0f64..4.0, any::<u64>()).prop_map(|(dims, opi, p, e, vseed)| R7 { dims, opi, p, e: (e * 64.0).round() / 64.0, vseed }).boxed();
